@@ -761,3 +761,160 @@ Section Loops.
     rewrite exec_return. reflexivity.
   Qed.
 End Loops.
+
+(* ------------------------------------------------------------------ for EVERY oracle: call := callx ext cprog fuel (S d) *)
+Lemma x_rstr_find_none : nth_error cprog X_rstr_find = None. Proof. vm_compute. reflexivity. Qed.
+Lemma x_ex_exec_none : nth_error cprog X_ex_exec = None. Proof. vm_compute. reflexivity. Qed.
+Lemma x_rstr_free_none : nth_error cprog X_rstr_free = None. Proof. vm_compute. reflexivity. Qed.
+Lemma x_ex_show_none : nth_error cprog X_ex_show = None. Proof. vm_compute. reflexivity. Qed.
+
+Lemma glob_loop_erase rfind mexec pat body nt dep : forall fuelM iM s vis,
+  fst (fst (GlobDefs.glob_loop_x rfind mexec fuelM iM pat body nt dep s vis)) = ExDefs.glob_loop rfind mexec fuelM iM pat body nt dep s.
+Proof.
+  induction fuelM as [|f IH]; intros iM s vis; [reflexivity|]. cbn [GlobDefs.glob_loop_x ExDefs.glob_loop].
+  destruct (nth_error (ExDefs.lns (ExDefs.lb s)) iM) as [x|]; [|reflexivity].
+  destruct (if Bool.eqb (negb match rfind pat (ExDefs.ltxt x) false with Some _ => true | None => false end) nt
+            then mexec body (ExDefs.set_xrow s (Z.of_nat iM)) else (s, 0)) as [s1 r].
+  destruct (Bool.eqb (negb match rfind pat (ExDefs.ltxt x) false with Some _ => true | None => false end) nt && negb (r =? 0)); [reflexivity|].
+  destruct (ExDefs.glob_scan _ dep (ExDefs.lb s1)) as [j l]. apply IH.
+Qed.
+
+Section Oracle.
+  Variable ext : nat -> list val -> mem -> res (val * mem).
+  Variables fuel d : nat.
+  Definition cx : nat -> list val -> mem -> res (val * mem) := callx ext cprog fuel (S d).   (* the calls ec_glob's body makes *)
+
+  Lemma cx_lbuf : forall m gbufs bl, nth_error m G_bufs = Some gbufs -> nth_error gbufs BUFS_LB = Some (VPtr bl 0) -> cx F_ex_lbuf [] m = Ok (VPtr bl 0, m).
+  Proof. intros. apply callx_mono. apply (tr_ex_lbuf m gbufs bl d fuel); assumption. Qed.
+  Lemma cx_len : forall m bl blk n, nth_error m bl = Some blk -> nth_error blk L_ln_n = Some (VInt n) -> i32 n -> cx F_lbuf_len [VPtr bl 0] m = Ok (VInt n, m).
+  Proof. intros. apply callx_mono. apply (tr_lbuf_len m bl blk n d fuel); assumption. Qed.
+  Lemma cx_get : forall m bl blk n bln lnblk pos p o, nth_error m bl = Some blk -> nth_error blk L_ln_n = Some (VInt n) -> i32 n ->
+    nth_error blk L_ln = Some (VPtr bln 0) -> nth_error m bln = Some lnblk -> 0 <= pos < n -> nth_error lnblk (Z.to_nat pos) = Some (VPtr p o) ->
+    cx F_lbuf_get [VPtr bl 0; VInt pos] m = Ok (VPtr p o, m).
+  Proof. intros. apply callx_mono. apply (tr_lbuf_get m bl blk n bln lnblk pos p o d fuel); assumption. Qed.
+  Lemma cx_gset : forall m bl blk bg gblk (lb : ExDefs.lbuf) pos x dep,
+    nth_error m bl = Some blk -> nth_error blk L_ln_glob = Some (VPtr bg 0) -> glob_rep m bg gblk (ExDefs.lns lb) ->
+    nth_error (ExDefs.lns lb) pos = Some x -> (dep <= 7)%N ->
+    cx F_lbuf_globset [VPtr bl 0; VInt (Z.of_nat pos); VInt (Z.of_N dep)] m
+    = Ok (VUndef, upd m bg (upd gblk pos (VInt (sb (N.setbit (ExDefs.lgl x) dep))))).
+  Proof. intros. apply callx_mono. apply (tr_lbuf_globset m bl blk bg gblk lb pos x dep d fuel); assumption. Qed.
+  Lemma cx_gget : forall m bl blk bg gblk (lb : ExDefs.lbuf) pos x dep,
+    nth_error m bl = Some blk -> nth_error blk L_ln_glob = Some (VPtr bg 0) -> glob_rep m bg gblk (ExDefs.lns lb) ->
+    nth_error (ExDefs.lns lb) pos = Some x -> (dep <= 7)%N ->
+    cx F_lbuf_globget [VPtr bl 0; VInt (Z.of_nat pos); VInt (Z.of_N dep)] m
+    = Ok (VInt (b2z (snd (ExDefs.lbuf_globget lb pos dep))), upd m bg (upd gblk pos (VInt (sb (N.clearbit (ExDefs.lgl x) dep))))).
+  Proof. intros. apply callx_mono. apply (tr_lbuf_globget m bl blk bg gblk lb pos x dep d fuel); assumption. Qed.
+  Lemma cx_ext f args m : nth_error cprog f = None -> cx f args m = ext f args m.
+  Proof. intro H. unfold cx. rewrite callx_S, H. reflexivity. Qed.
+
+  Variables v0 v1 v2 v3 v9 : val.
+  Variables bre b5 b6 b7 b10 : nat.
+  Variable nt : bool.
+  Variable fr : list nat.
+  Variable dep : N.
+  Hypothesis Hdep : (dep <= 7)%N.
+  Notation STx := (ST v0 v1 v2 v3 v9 bre b5 b6 b7 b10 nt).
+
+  (* (1) the marking loop = globset_range *)
+  Theorem tr_glob_mark_loop y n i (lb : ExDefs.lbuf) gblk m ln fuel' e : In b7 fr ->
+    mrep (keep fr) y gblk m (LB lb) -> cell_at m G_xgdep (Z.of_N dep) -> cell_at m b7 e -> i32 e ->
+    0 <= i -> e <= Z.of_nat (length (LB lb)) -> n = Z.to_nat (e - i) -> (n < fuel')%nat ->
+    exists gblk', exec cx fuel' mark_loop (STx i ln m) = ONormal (STx (Z.max i e) ln (upd m (y_bg y) gblk')) /\
+                  mrep (keep fr) y gblk' (upd m (y_bg y) gblk') (LB (ExDefs.globset_range n (Z.to_nat i) dep lb)).
+  Proof. intro Hb7. apply (mark_loop_ok cx cx_lbuf cx_len cx_get cx_gset cx_gget); assumption. Qed.
+  (* (2) the scan = glob_scan *)
+  Theorem tr_glob_scan_loop y n i (lb : ExDefs.lbuf) gblk m ln fuel' :
+    mrep (keep fr) y gblk m (LB lb) -> cell_at m G_xgdep (Z.of_N dep) -> (i + n = length (LB lb))%nat -> (n < fuel')%nat ->
+    exists gblk', exec cx fuel' scan_loop (STx (Z.of_nat i) ln m)
+                  = ONormal (STx (Z.of_nat (fst (ExDefs.glob_scan i dep lb))) ln (upd m (y_bg y) gblk')) /\
+                  mrep (keep fr) y gblk' (upd m (y_bg y) gblk') (LB (snd (ExDefs.glob_scan i dep lb))).
+  Proof. apply (scan_loop_ok cx cx_lbuf cx_len cx_get cx_gset cx_gget); assumption. Qed.
+  (* (3) the final sweep = globclear *)
+  Theorem tr_glob_sweep_loop y n i (lb : ExDefs.lbuf) gblk m ln fuel' :
+    mrep (keep fr) y gblk m (LB lb) -> cell_at m G_xgdep (Z.of_N dep) -> (i + n = length (LB lb))%nat -> (n < fuel')%nat ->
+    exists gblk', exec cx fuel' sweep_loop (STx (Z.of_nat i) ln m) = ONormal (STx (Z.of_nat (length (LB lb))) ln (upd m (y_bg y) gblk')) /\
+                  mrep (keep fr) y gblk' (upd m (y_bg y) gblk') (LB (ExDefs.globclear n i dep lb)).
+  Proof. apply (sweep_loop_ok cx cx_lbuf cx_len cx_get cx_gset cx_gget); assumption. Qed.
+
+  (* the oracles of the visit loop, as the oracle `ext` answers them *)
+  Variable B : nat.
+  Variable rfind : bytes -> bytes -> bool -> option (nat * nat).
+  Variable mexec : bytes -> ExDefs.st -> ExDefs.st * Z.
+  Variables pat body : bytes.
+  Variable bs : nat.
+  Variable os : Z.
+  Definition find_oracle : Prop := forall m s y gblk i x p o, st_rep fr B m s -> mrep (keep fr) y gblk m (LB (ExDefs.lb s)) ->
+    nth_error (LB (ExDefs.lb s)) i = Some x -> nth_error (y_lnblk y) i = Some (VPtr p o) ->
+    exists r m', ext X_rstr_find [VPtr bre 0; VPtr p o; VInt 16; VPtr b5 0; VInt 0] m = Ok (VInt r, m') /\ i32 r /\
+                 (r <? 0) = negb (hit_of rfind pat x) /\ st_rep fr B m' s /\ keeps fr m m'.
+  Definition exec_oracle : Prop := forall m s, st_rep fr B m s ->
+    exists r m', ext X_ex_exec [VPtr bs os] m = Ok (VInt r, m') /\ (r =? 0) = (snd (mexec body s) =? 0) /\
+                 st_rep fr B m' (fst (mexec body s)) /\ keeps fr m m'.
+  Definition free_oracle : Prop := forall m s, st_rep fr B m s -> exists v m', ext X_rstr_free [VPtr bre 0] m = Ok (v, m') /\ st_rep fr B m' s.
+  Definition exec_keeps_depth : Prop := forall s, ExDefs.xgdep (fst (mexec body s)) = ExDefs.xgdep s.
+  Hypothesis Hnx : ~ In G_xrow fr.
+  Hypothesis Hng : ~ In G_xgdep fr.
+  Hypothesis Hb10 : In b10 fr.
+  Hypothesis Hfind : find_oracle.
+  Hypothesis Hexec : exec_oracle.
+  Hypothesis Hgd : exec_keeps_depth.
+  Lemma cx_find : forall m s y gblk i x p o, st_rep fr B m s -> mrep (keep fr) y gblk m (LB (ExDefs.lb s)) ->
+    nth_error (LB (ExDefs.lb s)) i = Some x -> nth_error (y_lnblk y) i = Some (VPtr p o) ->
+    exists r m', cx X_rstr_find [VPtr bre 0; VPtr p o; VInt 16; VPtr b5 0; VInt 0] m = Ok (VInt r, m') /\ i32 r /\
+                 (r <? 0) = negb (hit_of rfind pat x) /\ st_rep fr B m' s /\ keeps fr m m'.
+  Proof. intros. rewrite (cx_ext _ _ _ x_rstr_find_none). eapply Hfind; eassumption. Qed.
+  Lemma cx_exec : forall m s, st_rep fr B m s ->
+    exists r m', cx X_ex_exec [VPtr bs os] m = Ok (VInt r, m') /\ (r =? 0) = (snd (mexec body s) =? 0) /\
+                 st_rep fr B m' (fst (mexec body s)) /\ keeps fr m m'.
+  Proof. intros. rewrite (cx_ext _ _ _ x_ex_exec_none). apply Hexec. assumption. Qed.
+
+  (* (4) one visit *)
+  Theorem tr_glob_visit_step m s iM x ln fuel' : st_rep fr B m s -> dep = N.of_nat (ExDefs.xgdep s) -> nth_error (LB (ExDefs.lb s)) iM = Some x ->
+    nth_error m b10 = Some [VPtr bs os] -> (B <= fuel')%nat ->
+    let run := Bool.eqb (negb (hit_of rfind pat x)) nt in
+    let s1 := if run then fst (mexec body (ExDefs.set_xrow s (Z.of_nat iM))) else s in
+    let r := if run then snd (mexec body (ExDefs.set_xrow s (Z.of_nat iM))) else 0 in
+    let i1 := if run then Z.to_nat (Z.min (Z.of_nat iM) (ExDefs.xrow s1)) else iM in
+    if run && negb (r =? 0) then
+      exists lnv m', exec cx (S fuel') visit_body (STx (Z.of_nat iM) ln m) = OBreak (STx (Z.of_nat iM) lnv m') /\ st_rep fr B m' s1 /\ keeps fr m m'
+    else
+      exists iC lnv m', exec cx (S fuel') visit_body (STx (Z.of_nat iM) ln m) = ONormal (STx iC lnv m') /\
+        st_rep fr B m' (ExDefs.set_lb s1 (snd (ExDefs.glob_scan i1 dep (ExDefs.lb s1)))) /\ keeps fr m m' /\
+        (iC = Z.of_nat (fst (ExDefs.glob_scan i1 dep (ExDefs.lb s1))) \/
+         (Z.of_nat (length (LB (ExDefs.lb s1))) <= iC /\ (length (LB (ExDefs.lb s1)) <= fst (ExDefs.glob_scan i1 dep (ExDefs.lb s1)))%nat)).
+  Proof. apply (visit_step cx cx_lbuf cx_len cx_get cx_gset cx_gget); first [assumption|exact cx_find|exact cx_exec]. Qed.
+
+  (* (5) THE VISIT LOOP, in simulation with the model's loop *)
+  Theorem tr_glob_visit_loop fuelM iM s vis iC m ln fuelC :
+    st_rep fr B m s -> dep = N.of_nat (ExDefs.xgdep s) -> nth_error m b10 = Some [VPtr bs os] ->
+    (iC = Z.of_nat iM \/ (Z.of_nat (length (LB (ExDefs.lb s))) <= iC /\ (length (LB (ExDefs.lb s)) <= iM)%nat)) ->
+    (fuelM + B < fuelC)%nat ->
+    snd (GlobDefs.glob_loop_x rfind mexec fuelM iM pat body nt dep s vis) <> 2%N ->
+    exists iC' ln' m', exec cx fuelC visit_loop (STx iC ln m) = ONormal (STx iC' ln' m') /\
+      st_rep fr B m' (ExDefs.glob_loop rfind mexec fuelM iM pat body nt dep s) /\ keeps fr m m' /\
+      ExDefs.xgdep (ExDefs.glob_loop rfind mexec fuelM iM pat body nt dep s) = ExDefs.xgdep s.
+  Proof.
+    intros. rewrite <- (glob_loop_erase rfind mexec pat body nt dep fuelM iM s vis).
+    apply (visit_loop_ok cx cx_lbuf cx_len cx_get cx_gset cx_gget) with (bs := bs) (os := os); first [assumption|exact cx_find|exact cx_exec].
+  Qed.
+
+  (* (6) the tail of ec_glob *)
+  Hypothesis Hb6 : In b6 fr.
+  Hypothesis Hb7 : In b7 fr.
+  Hypothesis Hfree : free_oracle.
+  Theorem tr_glob_tail m s b e v11 v12 fuelM fuelC :
+    st_rep fr B m s -> dep = N.of_nat (S (ExDefs.xgdep s)) ->
+    cell_at m b6 b -> cell_at m b7 e -> 0 <= b < 2147483647 -> e <= Z.of_nat (length (LB (ExDefs.lb s))) -> i32 e ->
+    nth_error m b10 = Some [VPtr bs os] -> (fuelM + B < fuelC)%nat ->
+    let s3 := ExDefs.set_gdep s (S (ExDefs.xgdep s)) in
+    let s4 := ExDefs.set_lb s3 (ExDefs.globset_range (Z.to_nat (e - b - 1)) (Z.to_nat (b + 1)) dep (ExDefs.lb s3)) in
+    snd (GlobDefs.glob_loop_x rfind mexec fuelM (Z.to_nat b) pat body nt dep s4 []) <> 2%N ->
+    let s5 := ExDefs.glob_loop rfind mexec fuelM (Z.to_nat b) pat body nt dep s4 in
+    let s6 := ExDefs.set_lb s5 (ExDefs.globclear (length (ExDefs.lns (ExDefs.lb s5))) 0 dep (ExDefs.lb s5)) in
+    exists i' ln' m',
+      exec cx fuelC glob_tail (mkst [v0; v1; v2; v3; VPtr bre 0; VPtr b5 0; VPtr b6 0; VPtr b7 0; VInt (b2z nt); v9; VPtr b10 0; v11; v12] m)
+      = OReturn (VInt 0) (STx i' ln' m') /\ st_rep fr B m' (ExDefs.set_gdep s6 (ExDefs.xgdep s)).
+  Proof.
+    apply (glob_tail_ok cx cx_lbuf cx_len cx_get cx_gset cx_gget) with (bs := bs) (os := os); first [assumption|exact cx_find|exact cx_exec|idtac].
+  Qed.
+End Oracle.
